@@ -39,3 +39,12 @@ class SP(MultiQueueScheduler):
                     break
             if self.total_packets == 0:
                 yield self.packets_available.get()
+
+    def put(self, packet: Packet):
+        """Queue the packet with the other packets of its class: the priority
+        table is keyed by class, like the weight tables of WFQ and DRR."""
+        class_id = self.flow2class(packet.flow_id)
+        if self.total_packets == 0:
+            self.packets_available.put(True)
+        self.add_packet_to_queue(packet)
+        self.stores[class_id].put(packet)
